@@ -882,6 +882,61 @@ def group_orders(g):
 for _g in collision_groups():
     atom("collide_" + _g.name, "nasty", _g.render())
 
+# ---- string-ish parameters / returns / data members: element x cv-placement x role ----
+_STR_ELEMS = (("c", "char"), ("w", "wchar_t"), ("u", "unsigned char"), ("s", "signed char"))
+# (tag, type with %s for the element, parameter declarator, can be returned, initialiser of a member)
+_STR_DECLS = (
+    ("p", "%s *", "%s *v", "buf()", "buf()"),
+    ("cp", "const %s *", "const %s *v", "buf()", "buf()"),
+    ("pc", "%s *const", "%s *const v", "buf()", "buf()"),
+    ("cpc", "const %s *const", "const %s *const v", "buf()", "buf()"),
+    ("pr", "%s *&", "%s *&v", "pref()", "pref()"),
+    ("cpr", "const %s *&", "const %s *&v", "cpref()", "cpref()"),
+    ("a", "%s [8]", "%s v[8]", None, None),
+    ("ca", "const %s [8]", "const %s v[8]", None, "{}"),
+)
+
+
+def _string_atoms():
+    for et, elem in _STR_ELEMS:
+        for dt, ty, pdecl, rexpr, minit in _STR_DECLS:
+            n = "Sx_%s_%s" % (et, dt)
+            t = ty % elem
+            if dt in ("a", "ca"):
+                tdef = "typedef %s %s_t[8];\n" % (t[:-4], n)
+                mdecl = "  %s m[8];\n" % t[:-4]
+            else:
+                tdef = "typedef %s%s_t;\n" % (t if t.endswith(("*", "&")) else t + " ", n)
+                mdecl = "  %s%sm;\n" % (t, "" if t.endswith(("*", "&")) else " ")
+            inits = []
+            if minit == "{}":
+                inits = ["m{}", "mt{}"]
+            elif minit and (dt in ("pc", "cpc", "pr", "cpr")):
+                inits = ["m(%s)" % minit, "mt(%s)" % minit]
+            elif minit:
+                inits = ["m(%s)" % minit, "mt(%s)" % minit]
+            body = [tdef, "class %s {\n" % n, "public:\n",
+                    "  static %s *buf() { static %s b[8] = {0}; return b; }\n" % (elem, elem),
+                    "  static %s *&pref() { static %s *p = buf(); return p; }\n" % (elem, elem),
+                    "  static const %s *&cpref() { static const %s *p = buf(); return p; }\n" % (elem, elem),
+                    "__published:\n",
+                    "  %s()%s {}\n" % (n, (" : " + ", ".join(inits)) if inits else ""),
+                    "  int p(%s) const { return v != 0; }\n" % (pdecl % elem),
+                    "  int pt(%s_t v) const { return v != 0; }\n" % n,
+                    "  int p2(int a, %s, int b = 3) const { return a + b + (v != 0); }\n" % (pdecl % elem)]
+            if rexpr:
+                body += ["  %s r() const { return %s; }\n" % (t, rexpr),
+                         "  %s_t rt() const { return %s; }\n" % (n, rexpr)]
+            body += [mdecl, "  %s_t mt;\n" % n, "};\n"]
+            free = ["__begin_publish\n", "inline int %s_f(%s) { return v != 0; }\n" % (n, pdecl % elem)]
+            if rexpr:
+                free.append("inline %s %s_g() { return %s::%s; }\n" % (t, n, n, rexpr))
+            free.append("__end_publish\n")
+            atom("str_%s_%s" % (et, dt), "strings", "".join(body + free))
+
+
+_string_atoms()
+
 ATOM_BY_NAME = {a.name: a for a in ATOMS}
 GROUPS = {}
 for _a in ATOMS:
